@@ -12,7 +12,7 @@ from concurrent.futures import ThreadPoolExecutor
 from vf import common, findings
 from vf.props import deductive, sync_ded
 
-KEYS = ["doctrans.ast_utils:set_value"]
+KEYS = ["doctrans.ast_utils:set_value", "doctrans.parser_utils:ir_merge"]
 
 CLASS_TPL = '''class {name}(object):
     """
@@ -164,6 +164,10 @@ def check(run, record_expected=False):
     if record_expected:
         return ded
     deductive.add_evaluated(run, ded, [i for i in sync_ded.main_guards() if "gen" in i[0]], "doctrans.__main__:main")
+    # gen reads every mapping entry through parse.class_ / parse.function -> ir_merge: the order of the generated interface is the
+    # order ir_merge produces, so its determinism obligations (audit of parser_utils) are premises of "describes the object it came from"
+    from vf.props import C07_ded
+    deductive.add_evaluated(run, ded, C07_ded.parser_utils_audit(), "audit")
     js = jobs(run.tier)
     with ThreadPoolExecutor(max_workers=16) as ex:
         res = list(ex.map(_run, js))
